@@ -386,7 +386,8 @@ class _VersionIndependentUnmarshaller:
         if PYTHON_VERSION_TRIPLE >= (3, 0) and self.version_tuple < (3, 0):
             string = UnicodeForPython3(unicodestring)
         else:
-            string = unicodestring.decode()
+            # marshal.c: PyUnicode_DecodeUTF8(buffer, n, "surrogatepass")
+            string = unicodestring.decode("utf-8", "surrogatepass")
 
         return self.r_ref(string, save_ref)
 
